@@ -639,6 +639,7 @@ func scnCodec(rep *Report, rng *Rng, tier string, outdir string) {
 		nStruct, nMal = 6000, 3000
 	}
 	cf := NewCaseFile(rep, outdir, "cases_codec", "UV.Corr.Codec", "mismatches_codec", 150)
+	scnCodecBuilder(rep, rng, tier)
 	rep.P("C09").Rule = "structured stream: random logical messages (boundary values 0,1,2^31,2^32-1,2^63,2^64-1, negative seconds, six types, default/non-default modes) x presentations (canonical; permuted fields, packed/unpacked block sizes, unknown fields incl. groups, non-minimal varints); timestamps and metadata likewise; distinct = distinct wire bytes; non-trivial = at least 2 fields present"
 	rep.P("C13").Rule = "malformed stream: truncations, bit flips, duplicated fields, inserted bytes, overlong varints, random bytes fed to the three decoders; distinct = distinct wire bytes; non-trivial = non-empty input"
 	emit := func(in CodecInput) {
